@@ -26,6 +26,9 @@ func (r *InnerTokenRequest) Marshal() []byte {
 }
 
 func (r *InnerTokenRequest) Unmarshal(data []byte) bool {
+	// Drop any cached encoding of the value held before
+	r.raw = nil
+
 	s := cryptobyte.String(data)
 
 	if !s.ReadUint8(&r.tokenKeyId) || !s.ReadBytes(&r.blindedMsg, 256) {
